@@ -80,6 +80,8 @@ type C15Field struct {
 	OmitConst C15Const
 	Default   C15Const
 	Rej       []C15Conj // simple unguarded conjuncts over Dest
+	Codec     string    // maddr peerID hexSecret base64Key enum ("" = none)
+	HiddenNested bool   // a hidden:"true" tag below the top level (not honoured by DisplayJSON)
 }
 
 func (f C15Field) JSONPath() string { return strings.Join(f.Path, ".") }
@@ -94,6 +96,9 @@ type C15Section struct {
 	EnvPrefix string
 	Fields    []C15Field
 	Validate  []C15Conj
+	VConj     []C15VConj  // Validate() as (guard, condition) pairs, see c15_validate.go
+	EnumLoad  [][2]string // switch of the enum load: JSON text -> constant name
+	EnumSave  [][2]string // String() method of the enum type: constant name -> JSON text
 }
 
 type c15spec struct {
@@ -202,6 +207,9 @@ func c15parse(path string) (*c15file, error) {
 	}
 	return cf, nil
 }
+
+// casts between an unsigned JSON field and the identically represented option type
+var c15castOK = map[string]bool{"goleveldb.Compression": true, "goleveldb.Strict": true, "uint": true}
 
 func c15typeName(e ast.Expr) string {
 	switch t := e.(type) {
@@ -371,6 +379,7 @@ type c15use struct {
 	mergo   bool
 	omit    string // save side: name/expression of the default the value is compared with
 	literal bool
+	codec   string
 }
 
 type c15an struct {
@@ -385,6 +394,8 @@ type c15an struct {
 	mergo    bool
 	mergoDst string
 	inMergo  bool
+	emptyZero map[string]bool // JSON leaf rewritten from "" to "0s" before ParseDurations
+	enumLoad  [][2]string
 }
 
 func (a *c15an) jsonTypes() map[string][]string {
@@ -533,8 +544,13 @@ func isCall(e ast.Expr, pkg, fn string) (*ast.CallExpr, bool) {
 // ---- load side ----
 
 func (a *c15an) loadStmts(list []ast.Stmt) {
-	for _, st := range list {
-		a.loadStmt(st)
+	for i := 0; i < len(list); {
+		if n := a.loadCodecPattern(list[i:]); n > 0 {
+			i += n
+			continue
+		}
+		a.loadStmt(list[i])
+		i++
 	}
 }
 
@@ -578,6 +594,8 @@ func (a *c15an) loadCall(c *ast.CallExpr, checked bool) bool {
 				k := "parseDurations"
 				if !checked {
 					k = "parseDurationsUnchecked"
+				} else if a.emptyZero[p] {
+					k = "emptyZeroParseDurations"
 				}
 				a.add(p, c15use{kind: k, dest: dst}, cl)
 			}
@@ -648,6 +666,13 @@ func (a *c15an) loadStmt(st ast.Stmt) {
 					}
 					a.add(p, c15use{kind: k, dest: a.destOf(lhs)}, rhs)
 					return
+				}
+				// dst = T(jcfg.F) for the value-preserving integer casts of the option structs
+				if c, ok := rhs.(*ast.CallExpr); ok && len(c.Args) == 1 && c15castOK[a.cf.src(c.Fun)] {
+					if p, via, ok := a.leafOrLocal(c.Args[0]); ok && via == "" {
+						a.add(p, c15use{kind: "direct", dest: a.destOf(lhs)}, c.Args[0])
+						return
+					}
 				}
 				// dst = T{K: jcfg.F, ...}
 				if cl, ok := rhs.(*ast.CompositeLit); ok {
@@ -768,12 +793,60 @@ func (a *c15an) saveValue(v ast.Expr) (kind, src string) {
 	if bl, ok := e.(*ast.BasicLit); ok && (bl.Value == `""` || bl.Value == "0") {
 		return "literal", ""
 	}
+	if id, ok := e.(*ast.Ident); ok {
+		if l, ok := a.locals[id.Name]; ok && l.kind == "listalias" {
+			return "codecListPrint", l.dest
+		}
+		if l, ok := a.locals[id.Name]; ok && l.kind == "keyalias" {
+			return "codecPrint", l.dest
+		}
+	}
+	if c, ok := e.(*ast.CallExpr); ok && len(c.Args) == 1 {
+		fn := a.cf.src(c.Fun)
+		arg := c.Args[0]
+		_, argSel := arg.(*ast.SelectorExpr)
+		switch {
+		case fn == "ipfsconfig.Strings":
+			if id, ok := arg.(*ast.Ident); ok {
+				if l, ok := a.locals[id.Name]; ok && l.kind == "listalias" {
+					return "codecListPrint", l.dest
+				}
+			}
+		case fn == "api.PeersToStrings" && argSel && isChain(arg):
+			return "codecListPrint", a.destOf(arg)
+		case (fn == "EncodeProtectorKey" || fn == "peer.Encode") && argSel && isChain(arg):
+			return "codecPrint", a.destOf(arg)
+		case c15castOK[fn] && argSel && isChain(arg):
+			return "direct", a.destOf(arg)
+		case fn == "int" || fn == "int64":
+			// int(cfg.G / time.Second): integer seconds, lossy
+			if be, ok := arg.(*ast.BinaryExpr); ok && be.Op == token.QUO && a.cf.src(be.Y) == "time.Second" {
+				if _, isSel := be.X.(*ast.SelectorExpr); isSel && isChain(be.X) {
+					return "durSeconds", a.destOf(be.X)
+				}
+			}
+		}
+	}
+	if c, ok := e.(*ast.CallExpr); ok && len(c.Args) == 0 {
+		if sel, ok := c.Fun.(*ast.SelectorExpr); ok && sel.Sel.Name == "Pretty" {
+			if _, isSel := sel.X.(*ast.SelectorExpr); isSel && isChain(sel.X) {
+				return "codecPrint", a.destOf(sel.X)
+			}
+		}
+	}
 	return "custom", ""
 }
 
 func (a *c15an) saveStmts(list []ast.Stmt, omit string, omitSrc string, condOther bool) {
-	for _, st := range list {
-		a.saveStmt(st, omit, omitSrc, condOther)
+	for i := 0; i < len(list); {
+		if omit == "" && !condOther {
+			if n := a.saveCodecPattern(list[i:]); n > 0 {
+				i += n
+				continue
+			}
+		}
+		a.saveStmt(list[i], omit, omitSrc, condOther)
+		i++
 	}
 }
 
@@ -894,7 +967,7 @@ func (a *c15an) unconsumed(body ast.Node) {
 			}
 		}
 		if id, ok := n.(*ast.Ident); ok {
-			if l, ok := a.locals[id.Name]; ok && l.kind != "cfgalias" {
+			if l, ok := a.locals[id.Name]; ok && l.kind != "cfgalias" && l.kind != "listalias" && l.kind != "keyalias" {
 				a.add(l.dest, c15use{kind: "custom"})
 			}
 		}
@@ -919,7 +992,7 @@ func c15ty(jtype string, load, save string) string {
 	case "*options.FileLoadingMode":
 		return "ptrint"
 	case "string":
-		if strings.HasPrefix(load, "parse") || save == "durString" || save == "omitIfDefaultDur" {
+		if strings.HasPrefix(load, "parse") || load == "emptyZeroParseDurations" || save == "durString" || save == "omitIfDefaultDur" || save == "durSeconds" {
 			return "dur"
 		}
 		return "str"
@@ -1060,13 +1133,14 @@ func c15one(repo string, sp c15spec) (C15Section, error) {
 	if sec.EnvPrefix == "" {
 		return sec, fmt.Errorf("%s: env prefix %s not evident", sp.file, sp.envKey)
 	}
-	a := &c15an{cf: cf, sp: sp, groups: map[string][]string{}, leaves: map[string]bool{}}
+	a := &c15an{cf: cf, sp: sp, groups: map[string][]string{}, leaves: map[string]bool{}, emptyZero: map[string]bool{}}
 	type leaf struct {
 		goPath, jsPath []string
 		nd             c15node
 		hidden         bool
 	}
 	var leaves []leaf
+	nestedHidden := map[string]bool{} // Go path prefix carrying a hidden tag below the top level
 	var walk func(tn string, goP, jsP []string, hidden bool) error
 	walk = func(tn string, goP, jsP []string, hidden bool) error {
 		for _, nd := range cf.structFields(tn) {
@@ -1078,13 +1152,19 @@ func c15one(repo string, sp c15spec) (C15Section, error) {
 				}
 				a.groups[nd.child] = g
 				a.leaves[strings.Join(g, ".")] = false
-				if err := walk(nd.child, g, j, hidden || nd.hidden); err != nil {
+				if nd.hidden && len(goP) > 0 {
+					nestedHidden[strings.Join(g, ".")] = true
+				}
+				if err := walk(nd.child, g, j, hidden || (nd.hidden && len(goP) == 0)); err != nil {
 					return err
 				}
 				continue
 			}
 			a.leaves[strings.Join(g, ".")] = true
-			leaves = append(leaves, leaf{g, j, nd, hidden || nd.hidden})
+			leaves = append(leaves, leaf{g, j, nd, hidden || (nd.hidden && len(goP) == 0)})
+			if nd.hidden && len(goP) > 0 {
+				nestedHidden[strings.Join(g, ".")] = true
+			}
 		}
 		return nil
 	}
@@ -1162,10 +1242,30 @@ func c15one(repo string, sp c15spec) (C15Section, error) {
 	if fd := cf.funcs[vname]; fd != nil && fd.Body != nil {
 		a.vars = map[string]string{}
 		sec.Validate = a.validate(fd.Body.List, "")
+		sec.VConj = a.validateConjs(fd)
 	} else {
 		return sec, fmt.Errorf("%s: %s not found", sp.file, vname)
 	}
 
+	sec.EnumLoad = a.enumLoad
+	if len(a.enumLoad) > 0 {
+		// the String() method whose constants are exactly the ones the switch assigns
+		for _, pairs := range cf.enumSaveTable() {
+			names := map[string]bool{}
+			for _, p := range pairs {
+				names[p[0]] = true
+			}
+			all := true
+			for _, p := range a.enumLoad {
+				if !names[p[1]] {
+					all = false
+				}
+			}
+			if all {
+				sec.EnumSave = pairs
+			}
+		}
+	}
 	for _, lf := range leaves {
 		key := strings.Join(lf.goPath, ".")
 		f := C15Field{Section: sp.name, Path: lf.jsPath, GoPath: lf.goPath, JType: lf.nd.jtype,
@@ -1186,7 +1286,7 @@ func c15one(repo string, sp c15spec) (C15Section, error) {
 			if len(plain) == 0 {
 				pick = viaMergo
 			}
-			f.Load, f.Dest = pick[0].kind, pick[0].dest
+			f.Load, f.Dest, f.Codec = pick[0].kind, pick[0].dest, pick[0].codec
 			for _, u := range pick[1:] {
 				if u.kind != f.Load {
 					f.Load = "custom"
@@ -1242,8 +1342,19 @@ func c15one(repo string, sp c15spec) (C15Section, error) {
 		} else if len(su) > 0 {
 			f.Save = "custom" // only a literal is ever stored
 		}
-		if (f.Save == "durString" || f.Save == "omitIfDefaultDur") && !strings.HasPrefix(f.Load, "parse") {
+		isDurLoad := strings.HasPrefix(f.Load, "parse") || f.Load == "emptyZeroParseDurations"
+		if f.Save == "durString" && (f.Load == "codecAlways" || f.Load == "codecNonEmpty") && (f.Codec == "maddr" || f.Codec == "enum") {
+			f.Save = "codecPrint" // String() of a multiaddress / of an enumeration constant
+		} else if (f.Save == "durString" || f.Save == "omitIfDefaultDur") && !isDurLoad {
 			f.Save = "custom" // String() of something that is not loaded as a duration
+		}
+		if f.Codec == "" && strings.HasPrefix(f.Save, "codec") {
+			f.Save = "custom" // printed but not parsed
+		}
+		for pre := range nestedHidden {
+			if key == pre || strings.HasPrefix(key, pre+".") {
+				f.HiddenNested = true
+			}
 		}
 		f.Ty = c15ty(f.JType, f.Load, f.Save)
 		// default
@@ -1284,6 +1395,7 @@ func c15one(repo string, sp c15spec) (C15Section, error) {
 		}
 		sec.Fields = append(sec.Fields, f)
 	}
+	C15ConstOpaque(&sec)
 	return sec, nil
 }
 
